@@ -135,6 +135,37 @@ def run(ctx, chk, tier="quick"):
     f = ctx.func("fit_offsets.find_offsets")
     flow = Flow.of(f)
     mod = f.module
+    # ---------------- O2 (zero expected): no truncated solve.  lstsq / pinv / matrix_rank with a cut-off far above machine
+    # precision drop the small singular values of the system: the result is the minimum-norm solution of a *different*
+    # (lower-rank) problem, not the minimiser of the squared spread
+    def _truncated(tree, module):
+        out = []
+        for c in ast.walk(tree):
+            if not isinstance(c, ast.Call):
+                continue
+            nm = c.func.attr if isinstance(c.func, ast.Attribute) else (c.func.id if isinstance(c.func, ast.Name) else "")
+            if nm not in ("lstsq", "pinv", "pinvh", "matrix_rank"):
+                continue
+            cut = [k.value for k in c.keywords if k.arg in ("rcond", "rtol", "cond", "atol", "tol")]
+            if nm == "lstsq" and len(c.args) > 2:
+                cut.append(c.args[2])
+            for v in cut:
+                if isinstance(v, ast.Name) and module is not None and module.constants.get(v.id) is not None:
+                    v = module.constants.get(v.id)
+                if isinstance(v, ast.Constant) and isinstance(v.value, float) and v.value > 1e-12:
+                    out.append((c, v.value))
+        return out
+    nfun = 0
+    for q_, fi_ in sorted(f.module.functions.items() if False else ctx.repo.module("fit_offsets").functions.items()):
+        nfun += 1
+        for c_, cutoff in _truncated(fi_.node, fi_.module):
+            chk.ob("C05.O2", False, where_of(fi_, c_), "%s: singular values below %g x the largest are dropped" % (ast.unparse(c_)[:70], cutoff),
+                   "the offsets solve the full normal equations (solve, or lstsq with the default machine-precision cut-off)",
+                   key="fit_offsets|truncated-solve|%s" % q_, local=True,
+                   why="a chain of intervals that share one level each gives a normal matrix with condition number above 1e7: the truncated solve drops the long-range modes of the overlap graph, so the returned offsets are not the minimiser and per-interval residuals against the master curve no longer sum to zero")
+    if len(_truncated(ast.parse("x = np.linalg.lstsq(A, b, rcond=1e-7)[0]"), None)) != 1 or _truncated(ast.parse("x = np.linalg.lstsq(A, b, rcond=None)[0]"), None):
+        chk.errors.append("C05.O2 positive control (truncated solve) did not behave")
+    chk.count("fit_offsets functions scanned for a truncated solve", nfun)
     # ---------------- O2: the solve call
     solves = [c for c in ast.walk(f.node) if isinstance(c, ast.Call) and (full_call_name(mod, c) or "").split(".")[-1] in ("solve", "lstsq")]
     if len(solves) != 1:
